@@ -302,3 +302,8 @@ From VD Require Import Model.Expect.
 Theorem region_boxes_are_source x y w h :
   gen_expect_box x y w h = region_box x y w h /\ gen_capture_region_box x y w h = (x, y, x + w, y + h).
 Proof. split; reflexivity. Qed.
+
+(** ** the encodings advertised after ServerInit: the list vncConnectionMade builds, option by option *)
+Theorem encodings_are_source c :
+  encodings_of c = gen_encodings (c_encoding c) (c_pseudocursor c) (c_nocursor c) (c_pseudodesktop c) (c_last_rect c) (c_qemu c).
+Proof. unfold encodings_of, gen_encodings. rewrite <- !app_assoc. reflexivity. Qed.
